@@ -418,7 +418,50 @@ def _build_tensor(ft, ids, tree, dflt, shape=None):
     return ft.Tensor.fromFiber(**kw)
 
 
-def _exec_nest(ft, levels, ops, z, i):
+class _DestSpy:
+    """watches Metrics.addUse during a nest: for the destination-side rows of every populate loop that is
+    NOT inserting (the statement exempts inserting ones) the traced position must be the index of the
+    coordinate in the destination fiber at the moment of the call (model-independent)"""
+
+    def __init__(self, ft):
+        self.ft = ft
+        self.cur = {}          # rank -> (destination fiber, list of records) of the running loop
+        self.bad = []
+        self.checked = 0
+
+    def __enter__(self):
+        M = self.ft.Metrics
+        self.orig = M.__dict__["addUse"]
+        orig = self.orig.__func__
+        spy = self
+
+        def addUse(cls, rank, coord, pos, type_="iter", iteration_num=None):
+            if type_ in ("populate_read_0", "populate_write_0") and rank in spy.cur:
+                fib, recs = spy.cur[rank]
+                recs.append((type_, coord, pos, list(fib.coords)))
+            return orig(cls, rank, coord, pos, type_=type_, iteration_num=iteration_num)
+        M.addUse = classmethod(addUse)
+        return self
+
+    def __exit__(self, *a):
+        self.ft.Metrics.addUse = self.orig
+
+    def begin(self, rank, fib):
+        self.cur[rank] = (fib, [])
+        return (list(fib.coords), self.cur[rank][1])
+
+    def end(self, rank, before, recs, first_coord):
+        self.cur.pop(rank, None)
+        inserting = bool(before) and first_coord is not None and first_coord < before[-1]
+        if inserting:
+            return
+        for ty, coord, pos, coords in recs:
+            self.checked += 1
+            if not (0 <= pos < len(coords) and coords[pos] == coord):
+                self.bad.append([rank, ty, coord, pos, coords])
+
+
+def _exec_nest(ft, levels, ops, z, i, spy=None):
     lv = levels[i]
     s = lv["src"]
     kind = s["kind"]
@@ -432,10 +475,16 @@ def _exec_nest(ft, levels, ops, z, i):
         off = s["off"]
         interval = None if s["lo"] is None else (s["lo"], s["hi"])
         expr = ops[s["x"]].project(trans_fn=lambda c, o=off: c + o, interval=interval, rank_id=lv["rank"])
+    watch = None
     if lv["pop"]:
+        if spy is not None:
+            watch = spy.begin(lv["rank"], z)
         expr = z << expr
     last = i + 1 == len(levels)
+    first = None
     for _c, p in expr:
+        if first is None:
+            first = _c
         z2 = z
         if lv["pop"]:
             z2, p = p
@@ -452,7 +501,9 @@ def _exec_nest(ft, levels, ops, z, i):
                         prod = prod * o.value
                 z2 += prod
         else:
-            _exec_nest(ft, levels, ops2, z2, i + 1)
+            _exec_nest(ft, levels, ops2, z2, i + 1, spy)
+    if watch is not None:
+        spy.end(lv["rank"], watch[0], watch[1], first)
 
 
 def _run_kernel_once(ft, case, ncu, consumable):
@@ -473,6 +524,7 @@ def _run_kernel_once(ft, case, ncu, consumable):
     for f in glob.glob(prefix + "-*.csv"):
         os.remove(f)
     err, mem = None, {}
+    dest = (0, [])
     try:
         M.beginCollect(prefix)
         M.setNumCachedUses(ncu)
@@ -480,7 +532,9 @@ def _run_kernel_once(ft, case, ncu, consumable):
             M.trace(r, t, consumable=consumable)
         for a, b in case["matches"]:
             M.matchRanks(a, b)
-        _exec_nest(ft, levels, ops, z, 0)
+        with _DestSpy(ft) as spy:
+            _exec_nest(ft, levels, ops, z, 0, spy)
+        dest = (spy.checked, spy.bad[:2])
         if consumable:
             for r, t in case["traced"]:
                 mem[_kstr([r, t])] = _mem_lines(M.consumeTrace(r, t))
@@ -498,26 +552,31 @@ def _run_kernel_once(ft, case, ncu, consumable):
             files[_kstr([r, t])] = _parse_csv(p) if os.path.exists(p) else None
     for f in glob.glob(prefix + "-*.csv"):
         os.remove(f)
-    return files, mem, err, (H.snapshot(z) if z is not None else None)
+    return files, mem, err, (H.snapshot(z) if z is not None else None), dest
 
 
 def _run_kernel(ft, case):
     impl = {"files": {}, "mem": None, "err": None}
     outs = []
+    dest_checked, dest_bad = 0, []
     for n in case["thresholds"]:
-        files, _, err, zs = _run_kernel_once(ft, case, n, False)
+        files, _, err, zs, dest = _run_kernel_once(ft, case, n, False)
         impl["files"][str(n)] = files
         outs.append(zs)
+        dest_checked += dest[0]
+        dest_bad += dest[1]
         if err and not impl["err"]:
             impl["err"] = err
-    _, mem, err, zs = _run_kernel_once(ft, case, 1000, True)
+    _, mem, err, zs, _ = _run_kernel_once(ft, case, 1000, True)
     outs.append(zs)
     impl["mem"] = mem
     if err and not impl["err"]:
         impl["err"] = err
     case["impl"] = impl
     # the result of the nest does not depend on the threshold / trace storage either
-    case["side"] = {"output_same_for_all_thresholds": all(o == outs[0] for o in outs)}
+    case["side"] = {"output_same_for_all_thresholds": all(o == outs[0] for o in outs),
+                    "dest_rows_address_element" + (": " + str(dest_bad[0]) if dest_bad else ""): not dest_bad}
+    impl["dest_rows_checked"] = dest_checked
     return case
 
 
@@ -684,11 +743,14 @@ def shrink_candidates(case):
 
 def extra_evidence(results):
     forms, depth, fam = {}, {}, {"kernel": 0, "api": 0}
+    dest = 0
     for c, v in results:
         fam[c["op"]] = fam.get(c["op"], 0) + 1
         if c["op"] == "kernel":
+            dest += c.get("impl", {}).get("dest_rows_checked", 0)
             depth[len(c["levels"])] = depth.get(len(c["levels"]), 0) + 1
             for lv in c["levels"]:
                 k = ("pop+" if lv["pop"] else "") + lv["src"]["kind"]
                 forms[k] = forms.get(k, 0) + 1
-    return {"case_families": fam, "nest_depths": depth, "level_forms": forms}
+    return {"case_families": fam, "nest_depths": depth, "level_forms": forms,
+            "destination_rows_checked_against_live_fiber": dest}
